@@ -52,13 +52,13 @@ func newEnv(dir string, text bool) *Env {
 		sess.SetStderr(query.NewDiscard())
 	}
 	ctx, cancel := context.WithCancel(context.Background())
-	tx, err := query.NewTransaction(ctx, 2*time.Second, 5*time.Millisecond, sess)
+	tx, err := query.NewTransaction(ctx, 120*time.Second, 5*time.Millisecond, sess)
 	if err != nil {
 		panic(err)
 	}
 	tx.Flags.Repository = dir
 	tx.Flags.SetQuiet(false)
-	tx.UpdateWaitTimeout(2, 5*time.Millisecond)
+	tx.UpdateWaitTimeout(120, 5*time.Millisecond) // generous: a short lock wait would turn machine load into spurious time-out errors
 	proc := query.NewProcessor(tx)
 	return &Env{Dir: dir, Sess: sess, Tx: tx, Proc: proc, Out: out, Ctx: ctx, Cancel: cancel}
 }
